@@ -199,6 +199,7 @@ func init() {
 			"GJS.Props.C05.float_bounds_exact", "GJS.Props.C05.int_bounds_exact", "GJS.Props.C05.absent_or_null_unchecked",
 			"GJS.Props.C05.int_multiple", "GJS.Props.C05.int_multiple_exact", "GJS.Props.C05.spec_multiple_int",
 		})
+		factsOf(c, "nbComparisons", "genBoundary")
 		oracleFails := 0
 
 		// ---- 1. NormalizeBounds on all order types (exhaustive) ----
@@ -315,6 +316,7 @@ func init() {
 			}
 		}
 		breaks(c, res, nil, oracleFails > 0)
+		c.FactsVerdict(oracleFails > 0)
 		knownProgramFindings(c)
 	})
 }
